@@ -676,6 +676,24 @@ class _Literals(ast.NodeTransformer):
             return ast.copy_location(ast.List(node.left.elts + node.right.elts, ast.Load()), node)
         return node
 
+    def visit_For(self, node):
+        self.generic_visit(node)
+        # `for w in (A, B): BODY` over a short literal tuple/list of plain chains, without break/continue/else:
+        # BODY[w := A]; BODY[w := B]
+        if isinstance(node.iter, (ast.Tuple, ast.List)) and 1 <= len(node.iter.elts) <= 4 and isinstance(node.target, ast.Name) \
+                and not node.orelse and all(_pure_chain(e) for e in node.iter.elts) \
+                and not any(isinstance(x, (ast.Break, ast.Continue)) for b in node.body for x in ast.walk(b)) \
+                and not any(isinstance(x, ast.Name) and x.id == node.target.id and isinstance(x.ctx, ast.Store) for b in node.body for x in ast.walk(b)):
+            import copy as _c
+            out = []
+            for el in node.iter.elts:
+                class _S(ast.NodeTransformer):
+                    def visit_Name(self, n, el=el, t=node.target.id):
+                        return ast.copy_location(_c.deepcopy(el), n) if n.id == t and isinstance(n.ctx, ast.Load) else n
+                out.extend(_S().visit(_c.deepcopy(b)) for b in node.body)
+            return out
+        return node
+
     def visit_Compare(self, node):
         self.generic_visit(node)
         # `K in (x, y)` with a constant K and a literal tuple/list -> `x == K or y == K`
